@@ -62,6 +62,8 @@ def ref_acyclic(n: int, edges: List[Tuple[int, int]], consts: Optional[Dict[int,
 
 
 def run(repo: Repo, rep: Report) -> None:
+    from .encodings import engine_selfcheck
+    engine_selfcheck(rep)
     rep.rule("ENC-S", "active_edges_acyclic posts the reference at-most-one-lower-parent schema with pairwise distinct neighbour ranks (deviations triaged by projection)")
     rep.saw(GRAPH, "active_edges_acyclic")
     from .encodings import standard_history
